@@ -36,10 +36,11 @@ Theorem c05_node_term_monotone : forall v tr w w' n,
 Proof. exact node_term_monotone. Qed.
 Print Assumptions c05_node_term_monotone.
 
-(* The coordinator never issues a term it has not first made durable (hypothesis: the provider's Store is
-   all-or-nothing): every NewTerm and BecomeLeader ever sent carries a term <= the term of the durable cell. *)
+(* The coordinator never issues a term it has not first made durable (hypothesis [store_sound]: the provider's Store is
+   all-or-nothing, and the controller does not carry on before a Store succeeded; failed Store attempts that are retried,
+   [ACoordStoreFail], and crashes during the outage are part of the traces): every NewTerm and BecomeLeader ever sent carries a term <= the term of the durable cell. *)
 Theorem c05_term_durable_before_use : forall v c0 nodes tr w,
-  run v (init_world c0 nodes) tr = Some w -> store_atomic tr ->
+  run v (init_world c0 nodes) tr = Some w -> store_sound tr ->
   exists d, w_dur w = DCell d /\
     (forall i n t, In (MNewTerm i n t) (w_msgs w) -> t <= c_term d) /\
     (forall i n t fm, In (MBecomeLeader i n t fm) (w_msgs w) -> t <= c_term d).
@@ -49,7 +50,7 @@ Print Assumptions c05_term_durable_before_use.
 (* A restarted coordinator never reuses or goes below a term already sent: whenever an election starts (in any
    incarnation, after any crash points), its term is strictly above every term any incarnation ever sent. *)
 Theorem c05_restart_never_reuses : forall v c0 nodes tr w a w' k',
-  run v (init_world c0 nodes) tr = Some w -> store_atomic tr ->
+  run v (init_world c0 nodes) tr = Some w -> store_sound tr ->
   (a = ACoordStartElection \/ exists from to, a = ACoordSwap from to) ->
   step v w a = Some w' -> w_coord w' = Some k' ->
   (forall i n t, In (MNewTerm i n t) (w_msgs w) -> t < c_term (k_md k')) /\
@@ -60,7 +61,7 @@ Print Assumptions c05_restart_never_reuses.
 (* At most one node ever serves as leader in a given term (w_wasleader records every node that became LEADER, with
    its term; every node that is LEADER now is in it). *)
 Theorem c05_one_leader_per_term : forall v c0 nodes tr w,
-  run v (init_world c0 nodes) tr = Some w -> store_atomic tr ->
+  run v (init_world c0 nodes) tr = Some w -> store_sound tr ->
   (forall n, n_ctrl (nodes n) = None) ->
   (forall n k t, n_ctrl (w_nodes w n) = Some (mkCtrl k t Leader) -> In (n, t) (w_wasleader w)) /\
   (forall n1 n2 t, In (n1, t) (w_wasleader w) -> In (n2, t) (w_wasleader w) -> n1 = n2).
@@ -93,7 +94,7 @@ Print Assumptions c05_leader_after_majority_fenced_and_max.
 
 (* O-7 (fixed in /repo): on the shipped newTermQuorum (no ensemble guard in the grace loop) a removed node is elected. *)
 Theorem c05_leader_in_ensemble_old_refuted :
-  exists tr w b, run shipped (init_world c_swap nodes0) tr = Some w /\ store_atomic tr /\
+  exists tr w b, run shipped (init_world c_swap nodes0) tr = Some w /\ store_sound tr /\
                  wf_run shipped (init_world c_swap nodes0) tr /\
                  In b (w_bl w) /\ ~ In (b_leader b) (b_ens b).
 Proof. exact leader_in_ensemble_shipped_refuted. Qed.
@@ -114,7 +115,7 @@ Print Assumptions c05_file_store_old_refuted.
    CConfigSwap = one Swap attempt, refused when any Store moved the version in between, then recomputed from the fresh
    status).  The election's Stores may fall anywhere between the load and the swap. *)
 Theorem c05_term_durable_before_use_cfg : forall c0 nodes tr x,
-  crun cfixed (init_cworld c0 nodes) tr = Some x -> cstore_atomic tr ->
+  crun cfixed (init_cworld c0 nodes) tr = Some x -> cstore_sound tr ->
   exists d, w_dur (cw x) = DCell d /\
     (forall i n t, In (MNewTerm i n t) (w_msgs (cw x)) -> t <= c_term d) /\
     (forall i n t fm, In (MBecomeLeader i n t fm) (w_msgs (cw x)) -> t <= c_term d).
@@ -122,7 +123,7 @@ Proof. exact term_durable_before_use_cfg. Qed.
 Print Assumptions c05_term_durable_before_use_cfg.
 
 Theorem c05_restart_never_reuses_cfg : forall c0 nodes tr x w' k',
-  crun cfixed (init_cworld c0 nodes) tr = Some x -> cstore_atomic tr ->
+  crun cfixed (init_cworld c0 nodes) tr = Some x -> cstore_sound tr ->
   step fixed (cw x) ACoordStartElection = Some w' -> w_coord w' = Some k' ->
   (forall i n t, In (MNewTerm i n t) (w_msgs (cw x)) -> t < c_term (k_md k')) /\
   (forall i n t fm, In (MBecomeLeader i n t fm) (w_msgs (cw x)) -> t < c_term (k_md k')).
@@ -130,7 +131,7 @@ Proof. exact restart_never_reuses_cfg. Qed.
 Print Assumptions c05_restart_never_reuses_cfg.
 
 Theorem c05_one_leader_per_term_cfg : forall c0 nodes tr x,
-  crun cfixed (init_cworld c0 nodes) tr = Some x -> cstore_atomic tr ->
+  crun cfixed (init_cworld c0 nodes) tr = Some x -> cstore_sound tr ->
   forall n1 n2 t, In (n1, t) (w_wasleader (cw x)) -> In (n2, t) (w_wasleader (cw x)) -> n1 = n2.
 Proof. exact one_leader_per_term_cfg. Qed.
 Print Assumptions c05_one_leader_per_term_cfg.
@@ -140,7 +141,7 @@ Print Assumptions c05_one_leader_per_term_cfg.
    term++ Store puts the durable term below a term already sent and the restarted coordinator reuses it. *)
 Theorem c05_config_stale_retry_refuted :
   exists tr x d i n t,
-    crun cstale (init_cworld c_steady (fun _ => node_init)) tr = Some x /\ cstore_atomic tr /\
+    crun cstale (init_cworld c_steady (fun _ => node_init)) tr = Some x /\ cstore_sound tr /\
     w_dur (cw x) = DCell d /\ In (MNewTerm i n t) (w_msgs (cw x)) /\ c_term d < t /\
     exists w' k', step fixed (cw x) ACoordStartElection = Some w' /\ w_coord w' = Some k' /\ c_term (k_md k') <= t.
 Proof. exact config_stale_retry_refuted. Qed.
@@ -157,3 +158,14 @@ Theorem c05_one_leader_per_term_cluster : forall E acts w,
               n = m.
 Proof. exact Oxia.Cluster.Preservation.one_leader_per_term. Qed.
 Print Assumptions c05_one_leader_per_term_cluster.
+
+(* If the retry loop of status_resource's Store gives up and the caller carries on (not the code as it is: there the
+   loop ends only after ~15 min; seeded as "bounded retries"), NewTerm goes out in a term the store never held and the
+   restarted coordinator issues it again.  [store_persists] is the hypothesis this trace violates. *)
+Theorem c05_store_giveup_refuted :
+  exists tr w d i n t,
+    run fixed (init_world c_plain nodes0) tr = Some w /\ store_atomic tr /\ wf_run fixed (init_world c_plain nodes0) tr /\
+    w_dur w = DCell d /\ In (MNewTerm i n t) (w_msgs w) /\ c_term d < t /\
+    exists w' k', step fixed w ACoordStartElection = Some w' /\ w_coord w' = Some k' /\ c_term (k_md k') <= t.
+Proof. exact store_giveup_refuted. Qed.
+Print Assumptions c05_store_giveup_refuted.
